@@ -386,12 +386,17 @@ func (cr *checkRun) finish() int {
 	}
 	exit := 0
 	seen := map[string]bool{}
+	printed := 0
 	for _, v := range cr.viol {
 		if seen[v.Obligation] {
 			continue
 		}
 		seen[v.Obligation] = true
 		exit = 1
+		printed++
+		if printed > 6 {
+			continue
+		}
 		if v.Replay == "" {
 			v.Replay = writeReplayFile(cr, v, nil)
 		}
@@ -402,6 +407,9 @@ func (cr *checkRun) finish() int {
 			line += " no-failing-input-found"
 		}
 		fmt.Println(line)
+	}
+	if printed > 6 {
+		fmt.Printf("(%d further failed obligations not printed; all are listed in the evidence file)\n", printed-6)
 	}
 	cr.writeEvidence(exit)
 	if exit == 0 && os.Getenv("GOVC_WRITE_REGISTRY") != "" {
